@@ -5,7 +5,10 @@ child order, grid constructor arguments, locator kind and indices/coordinates, m
 link targets, number densities, volume, mass, every persistent assigned parameter).  Laws:
    obs(r) == obs(load(write(r)));  obs(load#1) == obs(load#2);  obs(load(write(load(write(r))))) == obs(load(write(r))).
 Workload: reactors from generated blueprints (hex third/full) and repo inputs (smallest, full test reactor, Cartesian,
-c5g7 pin lattices), each taken through a random state history before the write.
+c5g7 pin lattices, a theta-RZ core made by HexToRZConverter), each taken through a random state history before the write.
+Also: what "persistent" means is pinned here (PINNED_PERSISTENT), not taken from the definitions of the tree under test; known
+differences are filed under their known key only when the case really is the one the finding describes (classification
+from the ORIGINAL model, see Ctx); every loaded reactor is checked for parent links and core lookup tables.
 """
 import copy
 import os
@@ -18,11 +21,21 @@ RULE = (
     "8-25 steps from {assign random persistent parameters of every class (scalar/str/bool/array/list kinds, on all or on a subset of objects), "
     "composition edits, temperature changes, block/assembly rotation, assembly swaps, discharge to the spent fuel pool, free-coordinate and "
     "multi-index pin locators}. A case = one (reactor, history) pair written and loaded; distinct by (reactor kind, history op multiset); every "
-    "case is non-trivial (>= 1 state change before the write)."
+    "case is non-trivial (>= 1 state change before the write). Every history also assigns one no-default result parameter on ALL objects of a "
+    "class (a fully assigned column must be written). Shard thrz: full test reactor reduced to 2-3 rings and converted by HexToRZConverter "
+    "(one theta bin - the converter refuses to split the centre ring -, random axial mesh, source expanded to full core or not), core finalised with Core.processLoading and the reactor named after the case title as reactors.factory "
+    "does (the loader takes the name from the settings). Parameter values compare by value and shape; the dtype KIND of an array (an int "
+    "array coming back as float) is not judged here - C05 judges kinds. Persistence of a definition is judged against a pinned list of names."
 )
 TOLERANCES = {"recomputed_rel": 1e-9}
-FLOORS = {"quick": {"law.roundtrip": 12, "law.load-twice": 12, "law.idempotent": 6, "law.roundtrip-later-node": 8, "nodes.compared": 3000},
-          "thorough": {"law.roundtrip": 150, "law.load-twice": 150, "law.idempotent": 60, "law.roundtrip-later-node": 80, "nodes.compared": 60000}}
+FLOORS = {"quick": {"law.roundtrip": 12, "law.load-twice": 12, "law.idempotent": 6, "law.roundtrip-later-node": 8, "nodes.compared": 3000,
+                    "law.roundtrip/thrz": 1, "loaded-tree.parent-links": 10000, "loaded-tree.core-lookups": 1500,
+                    "persistence.definitions-pinned": 3000, "workload.nodefault-column-fully-assigned": 12,
+                    "classify.recomputed-judged-against-original": 2500},
+          "thorough": {"law.roundtrip": 150, "law.load-twice": 150, "law.idempotent": 60, "law.roundtrip-later-node": 80, "nodes.compared": 60000,
+                       "law.roundtrip/thrz": 4, "loaded-tree.parent-links": 100000, "loaded-tree.core-lookups": 15000,
+                       "persistence.definitions-pinned": 5000, "workload.nodefault-column-fully-assigned": 150,
+                       "classify.recomputed-judged-against-original": 25000}}
 TIMEOUT = {"quick": 900, "thorough": 7200}
 
 
@@ -36,17 +49,23 @@ def plan(tier, seed):
         out += [{"name": "full%d" % i, "kind": "repo", "input": "armiRun.yaml", "n": 3} for i in range(3)]
     else:
         out.append({"name": "full0", "kind": "repo", "input": "armiRun.yaml", "n": 1})
+    out += [{"name": "thrz%d" % i, "kind": "thrz", "n": 2 if q else 3} for i in range(1 if q else 3)]
     return out
 
 
 def run_shard(spec, rec):
     from vlib import gen
 
+    check_pinned_definitions(rec, {"shard": spec["name"]})
     for i in range(spec["n"]):
         rng = random.Random("%s:%d" % (spec["rng"], i))
-        w = {"shard": spec["name"], "case": i}
+        w = {"shard": spec["name"], "case": i, "rng": "%s:%d" % (spec["rng"], i)}
         try:
-            if spec["kind"] == "generated":
+            if spec["kind"] == "thrz":
+                r, cs, bp, desc = build_thrz(rng)
+                w["reactor"] = desc
+                kind = "thrz"
+            elif spec["kind"] == "generated":
                 sym = rng.choice(["third periodic", "third periodic", "full"])
                 cspec = gen.core_spec(rng, rings=rng.randint(2, 4), symmetry=sym, ndesigns=rng.randint(1, 3), nblocks=rng.randint(1, 4))
                 r, cs, bp, text = gen.build_reactor(cspec, {"trackAssems": True} if rng.random() < .6 else None)
@@ -83,6 +102,184 @@ def load_repo(inp):
         bp = blueprints.loadFromCs(cs)
         r = reactors.factory(cs, bp)
     return r, cs, bp
+
+
+def build_thrz(rng):
+    """A theta-RZ reactor the way armi makes one: the full test reactor cut down to a few rings, homogenised by HexToRZConverter."""
+    import math
+
+    from armi.reactor.converters import geometryConverters
+    from armi.testing import loadTestReactor, reduceTestReactorRings
+    from armi.tests import TEST_ROOT
+    from vlib.env import quiet
+
+    rings = rng.choice([2, 2, 3])
+    zs = sorted(set([round(rng.uniform(20, 170), 1) for _ in range(rng.randint(2, 6))] + [175.0]))
+    expand = rng.random() < .5
+    with quiet():
+        o, r = loadTestReactor(TEST_ROOT)
+        reduceTestReactorRings(r, o.cs, rings)
+        cs = o.cs
+        conv = geometryConverters.HexToRZConverter(
+            cs, {"radialConversionType": "Ring Compositions", "axialConversionType": "Axial Coordinates", "uniformThetaMesh": True,
+                 "thetaBins": 1, "axialMesh": zs, "thetaMesh": [2 * math.pi]}, expandReactor=expand)
+        conv.convert(r)
+        rz = conv.convReactor
+        # bring the converted core to the state reactors.factory leaves a core in (mirrors of the case settings such as beta, block
+        # mass parameters), and name the reactor after the case: Database.load takes the name from the settings it is given
+        rz.core.processLoading(cs)
+    rz.name = "R-" + cs.caseTitle
+    assert type(rz.core.spatialGrid).__name__ == "ThetaRZGrid", type(rz.core.spatialGrid)
+    return rz, cs, r.blueprints, {"thrz": True, "rings": rings, "axialMesh": zs, "expandReactor": expand, "assemblies": len(rz.core)}
+
+
+# ----------------------------------------------------------------------------- what "persistent" means (pinned, B2)
+# Names of the parameter definitions with saveToDB=True per parameter-collection class, taken once from the tree this check was written
+# against (stock App).  obs.params_obs() observes "every persistent parameter" by asking the definitions of the tree under test, so a
+# definition that silently stops being saved would vanish from both sides of every comparison; this list is the independent statement
+# of what has to be saved.  "+Component" = the names of "Component" plus the ones listed.
+PINNED_PERSISTENT = {
+    "ArmiObject": (
+        "flags serialNum "
+    ),
+    "Assembly": (
+        "THcoolantInletT THcoolantOutletT THdeltaPNoGrav THdeltaPPump THdeltaPTotal THlocalDTout THlocalDToutFuel THmassFlowRate "
+        "THorificeZone arealPd assemNum buLimit chargeBu chargeCycle chargeFis chargeTime crCriticalFraction crCurrentElevation "
+        "crInsertedElevation crRodLength crWithdrawnElevation daysSinceLastMove detailedNDens dischargeTime flags hotChannelFactors kInf "
+        "maxDpaPeak maxPercentBu multiplicity notes nozzleType numMoves orientation powerDecay serialNum timeToLimit type "
+    ),
+    "Block": (
+        "TH0SigmaCladIDT TH0SigmaCladODT TH2SigmaCladIDT TH2SigmaCladODT TH3SigmaCladIDT TH3SigmaCladODT THTfuelCL THTfuelOD "
+        "THaverageCladIDT THaverageCladODT THaverageCladTemp THaverageDuctTemp THaverageGapTemp THcoolantAverageT THcoolantInletT "
+        "THcoolantOutletT THcoolantStaticT THcornTemp THdeltaPTotal THdilationPressure THedgeTemp THhotChannel THhotChannelCladIDT "
+        "THhotChannelCladODT THhotChannelFuelCenterlineT THhotChannelFuelODT THhotChannelHeatTransferCoeff THhotChannelOutletT THlocalDTout "
+        "THlocalDToutFuel THmassFlowRate THorificeZone adjMgFlux arealPd assemNum avgFuelTemp axExtenNodeHeight axMesh "
+        "axialExpTargetComponent axialGrowthPct axialPowerProfile axialPowerProfileGamma axialPowerProfileNeutron betad blockBeta blockF "
+        "bondRemoved breedRatio buLimit buRate buRatePeak burnupMWdPerKg capturePowerFrac chi chid cladACCI cladWastage convRatio "
+        "cornerFastFlux crWastage cyclicNErr detailedDpa detailedDpaPeak detailedDpaPeakRate detailedDpaRate detailedDpaThisCycle "
+        "displacementX displacementY dpaPeakFromFluence enrichmentBOL envGroup envGroupNum eqCascade eqRegion fastFluence fastFluencePeak "
+        "fastFlux fastFluxFr fertileBonus fisDens fisDensHom fissileAfter fissileBefore fissileDestroyed fissileFraction flags fluence flux "
+        "fluxAdj fluxAdjPeak fluxGamma fluxPeak fpAveFuelTemp fpPeakFuelTemp fuelCladLocked gammaSrc gasPorosity gasReleaseFraction height "
+        "heightBOL heliumInB4C id initialB10ComponentVol intrinsicSource intrinsicSourceDecayed kInf kgFis kgHM linPow linPowByPin "
+        "linPowByPinGamma linPowByPinNeutron liquidPorosity massHmBOL mchan medAbsE medFisE medFlxE mgFlux mgFluxGamma mgGammaSrc "
+        "mgNeutronVelocity molesHmBOL molesHmNow mreg nPins newDPA newDPAPeak orientation pdens pdensDecay pdensGamma pdensGenerated "
+        "pdensNeutron percentBu percentBuMax percentBuMaxPinLocation percentBuPeak pinMgFluxes pointsCornerDpa pointsCornerDpaRate "
+        "pointsCornerFastFluxFr pointsEdgeDpa pointsEdgeDpaRate pointsEdgeFastFluxFr power powerGamma powerGenerated powerNeutron powerRx "
+        "powerShapeDelta ppdens ppdensGamma puFrac rateAbs rateBalance rateCap rateExtSrc rateFis rateFisAbs rateFisSrc rateLeak "
+        "rateParasAbs rateProdFis rateProdN2n rateProdNet rateScatIn rateScatOut reactionRates residence rxCladDensityCoeffPerMass "
+        "rxCladDensityCoeffPerTemp rxCladDopplerCoeffPerTemp rxCladDopplerConstant rxCladTemperatureCoeffPerMass "
+        "rxCladTemperatureCoeffPerTemp rxCoolantDensityCoeffPerMass rxCoolantDensityCoeffPerTemp rxCoolantTemperatureCoeffPerMass "
+        "rxCoolantTemperatureCoeffPerTemp rxFuelDensityCoeffPerMass rxFuelDensityCoeffPerTemp rxFuelDopplerCoeffPerTemp "
+        "rxFuelDopplerConstant rxFuelTemperatureCoeffPerMass rxFuelTemperatureCoeffPerTemp rxFuelVoidedDopplerCoeffPerTemp "
+        "rxFuelVoidedDopplerConstant rxFuelVoidedTemperatureCoeffPerMass rxFuelVoidedTemperatureCoeffPerTemp rxStructureDensityCoeffPerMass "
+        "rxStructureDensityCoeffPerTemp rxStructureDopplerCoeffPerTemp rxStructureDopplerConstant rxStructureTemperatureCoeffPerMass "
+        "rxStructureTemperatureCoeffPerTemp serialNum smearDensity timeToLimit topIndex totalCladStrain type xsType xsTypeNum z zbottom "
+        "ztop "
+    ),
+    "Circle": (
+        "+Component id od op "
+    ),
+    "Component": (
+        "area buRate burnupMWdPerKg customIsotopicsName detailedNDens flags massHmBOL mergeWith modArea molesHmBOL mult numberDensities "
+        "percentBu pinNDens pinNum pinPercentBu puFrac serialNum temperatureInC theoreticalDensityFrac type volume zrFrac "
+    ),
+    "Core": (
+        "ConvRatioCore THmaxDeltaPPump THmaxDilationPressure THoutletTempIdeal absPerFisCore adjWeightedFisSrc axialExpansionPercent "
+        "axialMesh beta betaComponents betaDecayConstants boecKeff breedingRatio coupledIteration crMostValuablePrimaryRodLocation "
+        "crMostValuableSecondaryRodLocation crTransientOverpowerWorth crWorthRequiredPrimary crWorthRequiredSecondary critSearchSlope "
+        "cyclics detailedNucKeys doublingTime dpaFullWidthHalfMax eigenvalues elevationOfACLP3Cycles elevationOfACLP7Cycles fastFluxFrAvg "
+        "fisFrac fisRateCore fissileMass flags heavyMetalMass jumpRing kInf keff keffUnc lastKeff leakageFracAxial leakageFracPlanar "
+        "leakageFracTotal loadPadDpaAvg loadPadDpaPeak maxAssemNum maxBuF maxBuI maxCyclicNErr maxDPA maxDetailedDpaThisCycle maxFlux "
+        "maxGridDpa maxPD maxProcessMemoryInMB maxcladFCCI maxdetailedDpaPeak maxpdens maxpercentBu medAbsCore medFluxCore medSrcCore "
+        "minProcessMemoryInMB minutesSinceStart numMoves orientation peakGridDpaAt60Years peakKeff pkFlux power powerDecay powerDensity "
+        "promptNeutronGenerationTime promptNeutronLifetime refKeff referenceBlockAxialMesh rxAclpRadialExpansionCoeffPerTemp "
+        "rxCladDensityCoeffPerTemp rxCladDopplerCoeffPerTemp rxCladDopplerConstant rxCladTemperatureCoeffPerTemp "
+        "rxControlRodDrivelineExpansionCoeffPerTemp rxCoolantDensityCoeffPerTemp rxCoolantTemperatureCoeffPerTemp "
+        "rxCoreWideCoolantVoidWorth rxFuelAxialExpansionCoeffPerPercent rxFuelAxialExpansionCoeffPerTemp rxFuelDensityCoeffPerTemp "
+        "rxFuelDopplerCoeffPerTemp rxFuelDopplerConstant rxFuelTemperatureCoeffPerTemp rxFuelVoidedDopplerCoeffPerTemp "
+        "rxFuelVoidedDopplerConstant rxFuelVoidedTemperatureCoeffPerTemp rxGridPlateRadialExpansionCoeffPerTemp "
+        "rxSpatiallyDependentCoolantVoidWorth rxStructureDensityCoeffPerTemp rxStructureDopplerCoeffPerTemp rxStructureDopplerConstant "
+        "rxStructureTemperatureCoeffPerTemp rxSwing serialNum totalIntrinsicSource totalIntrinsicSourceDecayed "
+    ),
+    "Cube": (
+        "+Component heightInner heightOuter lengthInner lengthOuter widthInner widthOuter "
+    ),
+    "Helix": (
+        "+Component axialPitch helixDiameter id od op "
+    ),
+    "HexHoledCircle": (
+        "+Component holeOP id od op "
+    ),
+    "Hexagon": (
+        "+Component ip op "
+    ),
+    "HoledHexagon": (
+        "+Component holeOD ip nHoles op "
+    ),
+    "HoledRectangle": (
+        "+Component holeOD lengthInner lengthOuter widthInner widthOuter "
+    ),
+    "HoledSquare": (
+        "+Component holeOD lengthInner lengthOuter widthInner widthOuter "
+    ),
+    "RadialSegment": (
+        "+Component azimuthal_differential height inner_axial inner_radius inner_theta outer_axial outer_radius outer_theta "
+        "radius_differential "
+    ),
+    "Reactor": (
+        "availabilityFactor capacityFactor cycle cycleLength eFeedMT eFissile eSWU flags lcoe maxAssemNum serialNum stepLength time "
+        "timeNode "
+    ),
+    "Rectangle": (
+        "+Component lengthInner lengthOuter widthInner widthOuter "
+    ),
+    "Sphere": (
+        "+Component id od op "
+    ),
+    "Triangle": (
+        "+Component base height "
+    ),
+    "UnshapedComponent": (
+        "+Component op userDefinedVolume "
+    ),
+}
+
+
+def check_pinned_definitions(rec, w):
+    from armi.reactor import assemblies, blocks, components, composites, reactors  # noqa: F401 (make the subclasses exist)
+
+    def subs(c):
+        for s in c.__subclasses__():
+            yield s
+            yield from subs(s)
+
+    colls = {}
+    for cls in subs(composites.ArmiObject):
+        pc = getattr(cls, "paramCollectionType", None)
+        if pc is not None and pc.__name__.endswith("ParameterCollection"):
+            colls.setdefault(pc.__name__[:-len("ParameterCollection")], pc)
+    removed = []
+    for cname, text in sorted(PINNED_PERSISTENT.items()):
+        names = text.split()
+        if names and names[0] == "+Component":
+            names = PINNED_PERSISTENT["Component"].split() + names[1:]
+        pc = colls.get(cname)
+        if pc is None:
+            removed.append(cname + ".*")
+            continue
+        defs = {pd.name: pd for pd in pc.pDefs}
+        for n in names:
+            pd = defs.get(n)
+            if pd is None:
+                removed.append("%s.%s" % (cname, n))  # a definition that no longer exists has nothing to round-trip: noted, not judged
+                continue
+            rec.hit("persistence.definitions-pinned")
+            if not pd.saveToDB:
+                rec.violation("persistence/definition-no-longer-saved/%s.%s" % (cname, n),
+                              "parameter %s of %s objects was persistent (saveToDB=True) and is now defined with saveToDB=False: an assigned value "
+                              "is silently lost by every database write" % (n, cname), dict(w, parameter=n, collection=pc.__name__))
+    if removed:
+        rec.note("persistence.pinned-definitions-not-defined-any-more", removed[:50])
 
 
 # ----------------------------------------------------------------------------- state histories
@@ -182,6 +379,11 @@ def history(rec, rng, r, w):
                 if not objs:
                     continue
                 defs = [pd for pd in objs[0].p.paramDefs if pd.saveToDB and pd.name not in SKIP_PARAMS and pd.name not in getattr(objs[0], "DIMENSION_NAMES", ())]
+                if type(objs[0]).__name__ == "DifferentialRadialSegment":
+                    # its outer_radius/outer_axial/outer_theta are DEPENDENT dimensions (not constructor arguments, so not in DIMENSION_NAMES):
+                    # every getComponentArea/getComponentVolume call re-derives them from inner + differential (updateDims), so a free value
+                    # there is not a state of the model (it survives only as long as the volume cache does)
+                    defs = [p_ for p_ in defs if p_.name not in ("outer_radius", "outer_axial", "outer_theta")]
                 if not defs:
                     continue
                 pd = rng.choice(defs)
@@ -258,32 +460,199 @@ def history(rec, rng, r, w):
     if not hist:
         r.core.p.power = 1.0
         hist.append("core-param:Core.power")
+    # a result parameter WITHOUT default assigned on every object of its class: the column is complete, so it has to be written and
+    # come back (the recorded finding is about columns that are only partly assigned - see Ctx.partial)
+    groups = classes_of(r)
+    rng = random.Random("nodefault-all:%s" % w.get("rng"))  # (own stream: the draws of the round trip stay those of the case rng)
+    try:
+        name = rng.choice(["ConvRatioCore", "absPerFisCore", "fisFrac", "fisRateCore"])
+        r.core.p[name] = rng.uniform(0.1, 3.0)
+        hist.append("nodefault-all:Core.%s" % name)
+        rec.hit("workload.nodefault-column-fully-assigned")
+        ccls = sorted((c for c in groups if issubclass(c, Component)), key=lambda c: c.__name__)
+        if ccls:
+            cls = rng.choice(ccls)
+            name = rng.choice(["buRate", "zrFrac"])
+            for o in groups[cls]:
+                o.p[name] = rng.uniform(0, 1)
+            hist.append("nodefault-all:%s.%s(%d)" % (cls.__name__, name, len(groups[cls])))
+            rec.hit("workload.nodefault-column-fully-assigned")
+    except Exception as e:
+        rec.crash("history-op/nodefault-all", e, dict(w, history=hist))
     return hist
 
 
 # ----------------------------------------------------------------------------- the round trip
-RECOMPUTED_ON_LOAD = {"kgHM", "kgFis", "puFrac", "maxAssemNum", "volume", "area"}
+# parameters that Core.processLoading recomputes from the loaded model (block masses, highest assembly number) and derived
+# component quantities: judged against the ORIGINAL model (Ctx.fresh), never waved through by name
+RECOMPUTED_ON_LOAD = ("kgHM", "kgFis", "puFrac", "maxAssemNum", "volume", "area")
+KNOWN_STALE = ("kgHM", "kgFis", "puFrac", "maxAssemNum")
 
 
-def classify(key, msg, w):
-    """mechanism keys for known classes of difference (None = within the documented tolerance for recomputed values)"""
-    import re
+def _unset(v):
+    return isinstance(v, tuple) and (v == ("unset",) or v[:1] == ("raises",))
 
+
+def _close(a, b):
+    if isinstance(a, bool) or isinstance(b, bool) or not isinstance(a, (int, float)) or not isinstance(b, (int, float)):
+        return False
+    return a == b or (a != a and b != b) or abs(a - b) <= TOLERANCES["recomputed_rel"] * max(abs(a), abs(b))
+
+
+class Ctx:
+    """What the ORIGINAL model says about the two recorded classes of difference, taken when it is observed (before the write):
+
+    partial  (class, parameter) pairs where the parameter has no value on at least one object of the class and a value on another -
+             the only case the finding 'nodefault-param-partially-assigned-column-dropped' is about;
+    fresh    per observation index, the value a few public queries give NOW for the parameters the loader recomputes
+             (block kgHM/kgFis/puFrac of core blocks, Core.maxAssemNum): the finding 'param-recomputed-on-load' is about a stored value
+             that was stale relative to the model at write time, and the loaded value being the one the model implies.
+    """
+
+    def __init__(self, r, o):
+        self.o = o
+        objs = []
+
+        def walk(x):
+            objs.append(x)
+            for k in list(x):
+                walk(k)
+
+        walk(r)
+        assert len(objs) == len(o) and all(type(a).__name__ == b["cls"] for a, b in zip(objs, o))
+        cnt = {}
+        for x in o:
+            for k, v in x["params"].items():
+                c = cnt.setdefault((x["cls"], k), [0, 0])
+                c[1 if _unset(v) else 0] += 1
+        self.partial = {k for k, (nset, nun) in cnt.items() if nset and nun}
+        self.fresh = {}
+        core = r.core
+        coreblocks = set(id(b) for a in core for b in a)
+        for i, x in enumerate(objs):
+            if x is core:
+                nums = [a.p.assemNum for a in core]
+                self.fresh[i] = {"maxAssemNum": max(nums) if nums else None}
+            elif id(x) in coreblocks:
+                try:
+                    mb = x.p.molesHmBOL
+                    self.fresh[i] = {"kgHM": float(x.getHMMass()) / 1000.0, "kgFis": float(x.getFissileMass()) / 1000.0,
+                                     "puFrac": float(x.getPuMoles() / mb) if mb > 0.0 else 0.0}
+                except Exception as e:  # (a history may have put something odd into molesHmBOL)
+                    self.fresh[i] = {"error": repr(e)}
+
+
+def judge_param(cls, name, oa, ob, ctx):
+    """raw key unless EVERY differing object of the class shows exactly what the recorded finding describes"""
+    raw = "param/%s/%s" % (cls, name)
+    if (cls, name) not in ctx.partial:
+        return raw
+    from vlib import obs
+
+    for x, y in zip(oa, ob):
+        if x["cls"] != cls or name not in x["params"] or name not in y["params"]:
+            continue
+        u, v = x["params"][name], y["params"][name]
+        if obs.values_equal(u, v):
+            continue
+        if _unset(u) or not _unset(v):
+            return raw  # a value appeared from nowhere, or a value changed: not the dropped-column finding
+    return "nodefault-param-partially-assigned-column-dropped"
+
+
+def classify(key, msg, oa, ob, ctx):
+    """mechanism keys for known classes of difference"""
     if key.startswith("loc/") and "'coord'" in msg and "'index'" in msg:
         return "locator/free-coordinate-becomes-index-location"
     parts = key.split("/")
     if parts[0] in ("param", "dimension") and parts[-1] == "modArea" and ("None" in msg and (" 0" in msg or "'0'" in msg)):
         return "unset-dimension-reads-zero/modArea"
-    if parts[0] == "param" and parts[-1] in RECOMPUTED_ON_LOAD:
-        m = re.search(r"differs: '([-+.e0-9]+)' vs '([-+.e0-9]+)'", msg)
-        if m:
-            a, b = float(m.group(1)), float(m.group(2))
-            if abs(a - b) <= TOLERANCES["recomputed_rel"] * max(abs(a), abs(b)):
-                return None
-        return "param-recomputed-on-load/%s" % parts[-1]
-    if parts[0] == "param" and "('raises', 'ParameterError')" in msg or parts[0] == "param" and "('unset',)" in msg:
-        return "nodefault-param-partially-assigned-column-dropped"
+    if parts[0] == "param" and len(parts) == 3 and ("('raises', 'ParameterError')" in msg or "('unset',)" in msg):
+        return judge_param(parts[1], parts[2], oa, ob, ctx)
     return key
+
+
+def judge_recomputed(rec, oa, ob, ctx, ignore=()):
+    """[(key, message)] for the parameters the loader recomputes; key None is never returned (within tolerance = no difference)"""
+    from vlib import obs
+
+    out = {}
+    if len(oa) != len(ob):
+        return []
+    for i, (x, y) in enumerate(zip(oa, ob)):
+        for name in RECOMPUTED_ON_LOAD:
+            if name in ignore or (name not in x["params"] and name not in y["params"]):
+                continue
+            if name not in x["params"] or name not in y["params"]:
+                out.setdefault("param-presence/%s/%s" % (x["cls"], name), "%s %s: parameter %s observed on one side only" % (x["cls"], x["name"], name))
+                continue
+            u, v = x["params"][name], y["params"][name]
+            if name in KNOWN_STALE and name in ctx.fresh.get(i, {}):
+                rec.hit("classify.recomputed-judged-against-original")
+            if obs.values_equal(u, v) or _close(u, v):
+                continue
+            where = "%s %s: parameter %s differs: %r vs %r" % (x["cls"], x["name"], name, u, v)
+            f = ctx.fresh.get(i, {}).get(name, "<not recomputed by the loader for this object>") if name in KNOWN_STALE else "<n/a>"
+            if name in KNOWN_STALE and isinstance(f, (int, float)) and not _close(u, f) and _close(v, f):
+                # stored value was stale when written (the model itself gives f), and the loader restored what the model gives
+                out.setdefault("param-recomputed-on-load/%s" % name, where + " (the original model gives %r through public queries: the stored value was stale)" % (f,))
+            else:
+                out.setdefault("param/%s/%s" % (x["cls"], name), where + " (the original model gives %r through public queries; not the recorded stale-value case)" % (f,))
+    return sorted(out.items())
+
+
+def compare(rec, oa, ob, ctx, prefix, w, limit=400, ignore=()):
+    from vlib import obs
+
+    seen = set()
+    found = [(classify(k, m, oa, ob, ctx), m) for k, m in obs.diff(oa, ob, limit=limit, ignore_params=tuple(ignore) + RECOMPUTED_ON_LOAD)]
+    for k, m in found + judge_recomputed(rec, oa, ob, ctx, ignore):
+        if k not in seen:
+            seen.add(k)
+            rec.violation(prefix + k, m, w)
+
+
+def loaded_tree_monitors(rec, r, w, which):
+    """B4: on every loaded reactor - each child's parent is its container, and the core's lookup tables agree with its children."""
+    bad = None
+    stack = [r]
+    members = {}
+    while stack:
+        o = stack.pop()
+        members[id(o)] = o
+        for c in o:
+            rec.hit("loaded-tree.parent-links")
+            if c.parent is not o and bad is None:
+                bad = "%r is listed by %r but its parent is %r" % (c, o, c.parent)
+            stack.append(c)
+    if bad:
+        rec.violation("loaded-tree/parent-is-not-the-container", bad, dict(w, which=which))
+    core = r.core
+    if core.parent is not r or core.r is not r:
+        rec.violation("loaded-tree/core-not-attached-to-reactor", "core.parent=%r core.r=%r" % (core.parent, core.r), dict(w, which=which))
+    problems = []
+    for a in core:
+        rec.hit("loaded-tree.core-lookups")
+        if core.assembliesByName.get(a.getName()) is not a:
+            problems.append(("assembliesByName", a.getName()))
+        if core.childrenByLocator.get(a.spatialLocator) is not a:
+            problems.append(("childrenByLocator", a.getName()))
+        for b in a:
+            rec.hit("loaded-tree.core-lookups")
+            if core.blocksByName.get(b.getName()) is not b:
+                problems.append(("blocksByName", b.getName()))
+    if len(core.childrenByLocator) != len(core):
+        problems.append(("childrenByLocator", "%d entries for %d assemblies" % (len(core.childrenByLocator), len(core))))
+    # (an assembly tracked in the spent fuel pool may stay in the name tables; anything listed must be a live member under its own name)
+    for tab in ("assembliesByName", "blocksByName"):
+        for k, v in getattr(core, tab).items():
+            if id(v) not in members or v.getName() != k:
+                problems.append((tab, "dangling or misnamed entry %r -> %r" % (k, v)))
+    seen = set()
+    for tab, what in problems:
+        if tab not in seen:
+            seen.add(tab)
+            rec.violation("loaded-tree/core-lookup-disagrees-with-children/" + tab, "%s: %s (%d problems in all)" % (tab, what, len(problems)), dict(w, which=which))
 
 
 def roundtrip(rec, rng, r, cs, bp, w, kind):
@@ -304,21 +673,20 @@ def roundtrip(rec, rng, r, cs, bp, w, kind):
         try:
             db.writeToDB(r)
             o0b = obs.obs(r)
+            ctx = Ctx(r, o0b)
             d = obs.diff(o0, o0b)
             rec.hit("law.write-does-not-change-model")
             for k, m in d[:5]:
                 rec.violation("write-changed-the-model/" + k, m, w)
             r1 = db.load(cyc, node, cs=cs, bp=bp)
             r2 = db.load(cyc, node, cs=cs, bp=bp)
+            loaded_tree_monitors(rec, r1, w, "load #1")
+            loaded_tree_monitors(rec, r2, w, "load #2")
             o1, o2 = obs.obs(r1), obs.obs(r2)
             rec.hit("law.roundtrip")
+            rec.hit("law.roundtrip/" + kind)
             rec.hit("nodes.compared", len(o0))
-            seen = set()
-            for k, m in obs.diff(o0b, o1, limit=400):
-                k = classify(k, m, w)
-                if k is not None and k not in seen:
-                    seen.add(k)
-                    rec.violation("roundtrip/" + k, m, w)
+            compare(rec, o0b, o1, ctx, "roundtrip/", w, limit=400)
             rec.hit("law.load-twice")
             for k, m in obs.diff(o1, o2)[:5]:
                 rec.violation("load-twice-differs/" + k, m, w)
@@ -351,31 +719,25 @@ def roundtrip(rec, rng, r, cs, bp, w, kind):
                 obs.obs(r)
                 r.sort()
                 oL = obs.obs(r)
+                ctxL = Ctx(r, oL)
                 db.writeToDB(r)
                 rL = db.load(cyc, node + 2, cs=cs, bp=bp)
+                loaded_tree_monitors(rec, rL, w, "load of the later node")
                 rec.hit("law.roundtrip-later-node")
-                seen = set()
-                for k, m in obs.diff(oL, obs.obs(rL), limit=200):
-                    k = classify(k, m, w)
-                    if k is not None and k not in seen:
-                        seen.add(k)
-                        rec.violation("roundtrip/" + k, m, dict(w, post=post, which="later node of the same in-memory reactor"))
+                compare(rec, oL, obs.obs(rL), ctxL, "roundtrip/", dict(w, post=post, which="later node of the same in-memory reactor"), limit=200)
                 r.p.timeNode = node
             if rng.random() < .6:
                 # save the loaded reactor under another time step and load again: same state
                 r1.p.timeNode = node + 1
+                ctx1 = Ctx(r1, o1)
                 db.writeToDB(r1)
                 r3 = db.load(cyc, node + 1, cs=cs, bp=bp)
+                loaded_tree_monitors(rec, r3, w, "load of the re-saved loaded reactor")
                 r1.p.timeNode = node
                 r3.p.timeNode = node
                 o3 = obs.obs(r3)
                 rec.hit("law.idempotent")
-                seen = set()
-                for k, m in obs.diff(o1, o3, limit=100, ignore_params=("timeNode",)):
-                    k = classify(k, m, w)
-                    if k is not None and k not in seen:
-                        seen.add(k)
-                        rec.violation("not-idempotent/" + k, m, w)
+                compare(rec, o1, o3, ctx1, "not-idempotent/", w, limit=100, ignore=("timeNode",))
         finally:
             db.close()
             try:
